@@ -139,6 +139,8 @@ pub struct Chip126x {
     pub unknown_opcodes: u32,
     /// number of configuration losses (reset, cold sleep)
     pub losses: u32,
+    /// what caused the last loss of configuration
+    pub last_loss: &'static str,
     pub keep_transcript: bool,
 }
 
@@ -188,6 +190,7 @@ impl Chip126x {
             tx_payloads: Vec::new(),
             unknown_opcodes: 0,
             losses: 0,
+            last_loss: "power-on",
             keep_transcript: true,
         };
         c.lose_configuration();
@@ -381,6 +384,7 @@ impl Chip126x {
                 self.sleep_warm = warm;
                 if !warm {
                     self.lose_configuration();
+                    self.last_loss = "cold-sleep";
                 }
                 // the data buffer is not retained in sleep mode, warm or cold
                 self.clear_data_buffer();
@@ -602,6 +606,7 @@ impl ChipModel for Chip126x {
     fn hard_reset(&mut self) {
         self.abort_op();
         self.lose_configuration();
+        self.last_loss = "reset";
         self.clear_data_buffer();
         self.mode = Mode::Stdby;
         self.pulse = false;
